@@ -225,9 +225,19 @@ inductive SortComp where
   | str (s : String)    -- `(s,)`
   deriving Repr, DecidableEq
 
+/-- `int(s)` for a string accepted by `r_is_int` -/
+def pyInt (s : String) : Int :=
+  let cs := s.toList
+  let (neg, ds) := match cs with
+    | '-' :: r => (true, r)
+    | '+' :: r => (false, r)
+    | _ => (false, cs)
+  let n : Nat := (ds.filter Char.isDigit).foldl (fun acc c => acc * 10 + (c.toNat - '0'.toNat)) 0
+  if neg then - (Int.ofNat n) else Int.ofNat n
+
 def sortComp : PKey → SortComp
   | .i n => .num (Int.ofNat n)
-  | .s k => if isIntLike k then .num ((k.trimAscii.toString.toInt?).getD 0) else .str k
+  | .s k => if isIntLike k then .num (pyInt k) else .str k
 
 /-- tuple comparison of two components: `lt a b` -/
 def SortComp.lt : SortComp → SortComp → Bool
